@@ -416,12 +416,15 @@ def r4_regroup_deterministic(ctx):
     proc = ctx.program.func(AM, 'AppMutator._process_mutation_batch')
     ok = False
     for n in walk_no_nested(proc.node):
-        if isinstance(n, ast.ListComp):
-            for gen in n.generators:
-                if isinstance(gen.iter, ast.Call) and \
-                        call_name(gen.iter) == 'sorted' and \
-                        'model_names' in unparse(gen.iter):
-                    ok = True
+        iters = []
+        if isinstance(n, (ast.ListComp, ast.GeneratorExp)):
+            iters = [gen.iter for gen in n.generators]
+        elif isinstance(n, ast.For):
+            iters = [n.iter]
+        for it in iters:
+            if isinstance(it, ast.Call) and call_name(it) == 'sorted' and \
+                    'model_names' in unparse(it):
+                ok = True
     if ok:
         ctx.ok(proc, 'regrouped list iterates sorted(model_names)')
     else:
